@@ -357,23 +357,7 @@ pub fn self_test() {
         let q = QOpt::from_index(i);
         assert!(compatible(&printer_for(&q), &q) || !(q.kw_octo || q.kw_prefix || q.kw_postfix));
     }
-    // default option structs agree with the library's own constructors, as far
-    // as observable: print/parse a probe with both.
-    let probe = lexpr::Value::list(vec![
-        lexpr::Value::keyword("k"),
-        lexpr::Value::Nil,
-        lexpr::Value::Bool(true),
-        lexpr::Value::vector(vec![lexpr::Value::from(1)]),
-        lexpr::Value::bytes(vec![1u8, 2]),
-        lexpr::Value::Char('a'),
-        lexpr::Value::string("\u{1}"),
-    ]);
-    assert_eq!(
-        lexpr::to_string_custom(&probe, POpt::default_set().to_lexpr()).unwrap(),
-        lexpr::to_string(&probe).unwrap()
-    );
-    assert_eq!(
-        lexpr::to_string_custom(&probe, POpt::elisp().to_lexpr()).unwrap(),
-        lexpr::to_string_custom(&probe, POptions::elisp()).unwrap()
-    );
+    // (that POpt::default_set()/elisp() print like the library's own default/elisp
+    // options is asserted by C07 and C02, not here: a self-test must not depend on
+    // the code under test)
 }
